@@ -10,7 +10,8 @@
     documented defect is present, a rejection never produces a game, and a game error is
     one that [from_root] reports (whose blame is C11_blame). *)
 From Coq Require Import Reals List Bool NArith.
-From Cfr.theories Require Import Num RInst Tree Cli CliProofs CliNamesProofs CliGambitProofs CliExamples.
+From Coq Require Import String.
+From Cfr.theories Require Import Num RInst Tree Solve Cli CliProofs CliNamesProofs CliGambitProofs CliExamples SolveApi CliRun CliRoute.
 Import ListNotations.
 Open Scope R_scope.
 
@@ -74,6 +75,27 @@ Proof. exact json_load_rejected. Qed.
 Example C17_example : gambit_load ex_numname ex_clash = Rejected RDuplicateInfosets.
 Proof. exact ex_clash_rejected. Qed.
 
+(** 9. the whole program prints a result object only for an input that some reader parsed AND the
+    semantic layer loaded: a text neither parser accepts, or a parsed file that is rejected,
+    prints nothing on every route, with every option (the text parsers are arbitrary functions) *)
+Theorem C17_never_solves_what_it_cannot_represent :
+  forall (Text JFile GFile : Type) (pj : Text -> option JFile) (pg : Text -> option GFile)
+         (lj : JFile -> loaded (@game RNum * R)) (lg : GFile -> loaded (@game RNum * R))
+         (a : args) (t : Text) (input : option string) (f : input_format) draw par s out g,
+    cli_main pj pg lj lg a input f t draw par s = Some (out, g) ->
+    exists sum, cli_load pj pg lj lg input f t = Parsed (Loaded (g, sum)).
+Proof. intros until g. apply main_some_loaded. Qed.
+
+Theorem C17_bad_input_prints_nothing :
+  forall (Text JFile GFile : Type) (pj : Text -> option JFile) (pg : Text -> option GFile)
+         (lj : JFile -> loaded (@game RNum * R)) (lg : GFile -> loaded (@game RNum * R))
+         (a : args) (t : Text) (input : option string) (f : input_format) draw par s,
+    (pj t = None /\ pg t = None) \/ (exists r, cli_load pj pg lj lg input f t = Parsed (Rejected r)) ->
+    cli_main pj pg lj lg a input f t draw par s = None.
+Proof. intros. now apply main_prints_nothing_for_bad_input. Qed.
+
+Print Assumptions C17_never_solves_what_it_cannot_represent.
+Print Assumptions C17_bad_input_prints_nothing.
 Print Assumptions C17_gambit_total.
 Print Assumptions C17_rejected_no_result.
 Print Assumptions C17_not_constant_sum_iff.
